@@ -1,6 +1,6 @@
 #!/bin/bash
 # run every stored seed against its property's check (sequentially; /repo is patched and restored each time)
 cd /verif
-for d in seeded/*/; do s=$(basename $d); [ -n "$1" ] && [[ ! "$s" =~ $1 ]] && continue
+for d in seeded/C*-*/; do s=$(basename $d); [ -n "$1" ] && [[ ! "$s" =~ $1 ]] && continue
   LINES_MAX=2 tools/seed_check.sh $s 2>&1 | head -3 | cut -c1-260
 done
